@@ -22,8 +22,8 @@ import (
 	"github.com/tendermint/tmlibs/flowrate"
 
 	"github.com/bytom/bytom/consensus"
-	msgs "github.com/bytom/bytom/netsync/messages"
 	"github.com/bytom/bytom/netsync/chainmgr"
+	msgs "github.com/bytom/bytom/netsync/messages"
 	"github.com/bytom/bytom/netsync/peers"
 	"github.com/bytom/bytom/protocol/bc"
 	"github.com/bytom/bytom/protocol/bc/types"
@@ -60,13 +60,13 @@ type world struct {
 	height uint64 // best height
 	fork   uint64
 	// reference bookkeeping
-	mainAt  []bc.Hash          // height -> hash of the main chain block
-	byHash  map[bc.Hash]*ent   // every block the node knows
-	locEnts []ent              // locator alphabet
-	stops   []ent              // stop alphabet
-	lists   [][]int            // locator lists (indices into locEnts), length <= 3
-	lists2  int                // how many of them have <= 2 entries (prefix of lists)
-	direct  bool               // run the direct locateHeaders enumeration
+	mainAt  []bc.Hash        // height -> hash of the main chain block
+	byHash  map[bc.Hash]*ent // every block the node knows
+	locEnts []ent            // locator alphabet
+	stops   []ent            // stop alphabet
+	lists   [][]int          // locator lists (indices into locEnts), length <= 3
+	lists2  int              // how many of them have <= 2 entries (prefix of lists)
+	direct  bool             // run the direct locateHeaders enumeration
 	skips   []uint64
 }
 
@@ -197,7 +197,7 @@ func buildWorld(netw *labnet.Net, name string, h, fork int, reorged bool, locHei
 
 type noBan struct{}
 
-func (noBan) StopPeerGracefully(string)           {}
+func (noBan) StopPeerGracefully(string)          {}
 func (noBan) IsBanned(string, byte, string) bool { return false }
 
 type capPeer struct {
@@ -222,10 +222,10 @@ func (p *capPeer) TrySend(ch byte, m interface{}) bool {
 // ---------- cases ----------
 
 const (
-	kHeaders = iota // blockKeeper.locateHeaders(locator, stop, skip, maxNum)
-	kBlocks         // blockKeeper.locateBlocks(locator, stop, isTimeout)
-	kWireHeaders    // GetHeadersMessage bytes -> decodeMessage -> processMsg -> handleGetHeadersMsg -> SendHeaders
-	kWireBlocks     // GetBlocksMessage bytes -> ... -> handleGetBlocksMsg -> SendBlocks
+	kHeaders     = iota // blockKeeper.locateHeaders(locator, stop, skip, maxNum)
+	kBlocks             // blockKeeper.locateBlocks(locator, stop, isTimeout)
+	kWireHeaders        // GetHeadersMessage bytes -> decodeMessage -> processMsg -> handleGetHeadersMsg -> SendHeaders
+	kWireBlocks         // GetBlocksMessage bytes -> ... -> handleGetBlocksMsg -> SendBlocks
 )
 
 var kindName = []string{"locateHeaders", "locateBlocks", "wire:GetHeaders", "wire:GetBlocks"}
@@ -484,8 +484,12 @@ func (w *world) judge(st *stats, seq int64, kind int, list []int, stopI int, ski
 	}
 	cd.Want, cd.WantErr = fmtHeights(want), wantErr
 
-	report := func(key, what string) {
-		key += sfx
+	// loop=true: the failure concerns what the skip/stop loop produced (items after the first,
+	// their number, the error); only those keys carry the uint64-overflow class of the request.
+	report := func(key, what string, loop bool) {
+		if loop {
+			key += sfx
+		}
 		if old, ok := st.viols[key]; ok && old.seq <= seq {
 			return
 		}
@@ -509,51 +513,51 @@ func (w *world) judge(st *stats, seq int64, kind int, list []int, stopI int, ski
 	// --- the statement ---
 	if pan != nil {
 		outcome = "panic"
-		report("panic."+panicClass(pan), fmt.Sprintf("%s panicked: %v", kindName[kind], pan))
+		report("panic."+panicClass(pan), fmt.Sprintf("%s panicked: %v", kindName[kind], pan), true)
 		return
 	}
 	if sends > 1 {
-		report("more-than-one-response", fmt.Sprintf("%d messages sent for one request", sends))
+		report("more-than-one-response", fmt.Sprintf("%d messages sent for one request", sends), false)
 		return
 	}
 	bad := false
 	if uint64(len(its)) > max {
 		bad = true
-		report("more-than-max-items", fmt.Sprintf("%d items, maximum %d", len(its), max))
+		report("more-than-max-items", fmt.Sprintf("%d items, maximum %d", len(its), max), true)
 	}
 	for i, it := range its {
 		if it.Height >= uint64(len(w.mainAt)) || w.mainAt[it.Height] != it.Hash {
 			bad = true
-			report("item-not-on-main-chain", fmt.Sprintf("item %d (height %d) is not the main chain block of its height", i, it.Height))
+			report("item-not-on-main-chain", fmt.Sprintf("item %d (height %d) is not the main chain block of its height", i, it.Height), i > 0)
 			break
 		}
 	}
 	for i := 1; i < len(its); i++ {
 		if its[i].Height <= its[i-1].Height {
 			bad = true
-			report("heights-not-strictly-increasing", fmt.Sprintf("item %d has height %d after height %d", i, its[i].Height, its[i-1].Height))
+			report("heights-not-strictly-increasing", fmt.Sprintf("item %d has height %d after height %d", i, its[i].Height, its[i-1].Height), true)
 			break
 		}
 	}
 	if len(its) > 0 && !firstOK {
 		bad = true
 		if ordered || len(mainHs) == 0 {
-			report("first-item-not-highest-main-locator-entry", fmt.Sprintf("first item has height %d, highest main-chain locator entry (or genesis) is at %d", its[0].Height, highest))
+			report("first-item-not-highest-main-locator-entry", fmt.Sprintf("first item has height %d, highest main-chain locator entry (or genesis) is at %d", its[0].Height, highest), false)
 		} else {
-			report("first-item-not-a-main-locator-entry", fmt.Sprintf("first item has height %d, main-chain locator entries are at %v", its[0].Height, mainHs))
+			report("first-item-not-a-main-locator-entry", fmt.Sprintf("first item has height %d, main-chain locator entries are at %v", its[0].Height, mainHs), false)
 		}
 	}
 	if len(its) > 0 {
 		switch {
 		case !stop.Known:
 			bad = true
-			report("response-for-unknown-stop", "items returned although the stop hash is unknown")
+			report("response-for-unknown-stop", "items returned although the stop hash is unknown", false)
 		case !stop.Main:
 			bad = true
-			report("response-for-stop-off-main-chain", "items returned although the stop block is not on the main chain")
+			report("response-for-stop-off-main-chain", "items returned although the stop block is not on the main chain", false)
 		case its[len(its)-1].Height > stop.Height:
 			bad = true
-			report("last-item-passes-stop", fmt.Sprintf("last item has height %d, stop block %d", its[len(its)-1].Height, stop.Height))
+			report("last-item-passes-stop", fmt.Sprintf("last item has height %d, stop block %d", its[len(its)-1].Height, stop.Height), true)
 		}
 	}
 	if bad {
@@ -579,13 +583,13 @@ func (w *world) judge(st *stats, seq int64, kind int, list []int, stopI int, ski
 		}
 		if !same {
 			outcome = "differs-from-reference"
-			report("differs-from-reference."+class, fmt.Sprintf("heights %v, reference %v", fmtItems(w, its), fmtHeights(want)))
+			report("differs-from-reference."+class, fmt.Sprintf("heights %v, reference %v", fmtItems(w, its), fmtHeights(want)), true)
 			return
 		}
 	}
 	if (kind == kHeaders || kind == kBlocks) && (gotErr != nil) != wantErr {
 		outcome = "differs-from-reference"
-		report("error-mismatch."+class, fmt.Sprintf("error %v, reference says error=%v", gotErr, wantErr))
+		report("error-mismatch."+class, fmt.Sprintf("error %v, reference says error=%v", gotErr, wantErr), true)
 	}
 }
 
